@@ -119,6 +119,7 @@ void h_priority(void) {
   if (nondet_bool()) { r = Message_setPollPriority(&m, p); } else { Message_setUsedByCondition(&m); r = 0; }
   __CPROVER_assert(m.m_pollPriority == 0 || m.m_pollOrder <= g_lastPollOrder + (unsigned)m.m_pollPriority || m.m_pollOrder == o0, "[C17] a pollable message is never placed beyond the window");
   __CPROVER_assert(m.m_pollOrder == o0 || m.m_pollOrder == g_lastPollOrder + (unsigned)m.m_pollPriority, "[C17] a priority change moves the message at most to the end of the current window (not before all others)");
+  __CPROVER_assert(p0 == 0 || m.m_pollOrder <= o0, "[C17] a priority change of an already pollable message never postpones it (bounded waiting under any sequence of priority changes)");
   __CPROVER_assert(!r || (p0 == 0 && m.m_pollPriority > 0), "[C17] the caller is told to queue the message exactly when it became pollable");
   __CPROVER_assert(!(m.m_usedByCondition) || m.m_pollPriority == 0 || m.m_pollPriority <= POLL_PRIORITY_CONDITION || m.m_pollPriority == p0, "[C17] messages used by conditions are polled at least with the condition priority");
   if (r) { CANARY("became pollable"); }
